@@ -49,8 +49,9 @@ class C15(Prop):
         return 60 if tier == "quick" else 1200
 
     def gen_case(self, rng):
-        rs = ruleset.gen_ruleset(rng, max_rules=5, depth=2, poison=30)
-        mem = rng.choice(ruleset.MEMS)
+        raw = rng.chance(1, 4)
+        rs = ruleset.gen_ruleset(rng, max_rules=5, depth=2, poison=30, raw_regex=40 if raw else 0)
+        mem = rng.choice(ruleset.RAW_MEMS if raw else ruleset.MEMS)
         case = {"rs": rs, "mem": mem.hex(), "full": rng.chance(1, 2), "nm": rng.chance(1, 3), "cb": rng.chance(1, 2),
                 "ev_nomatch": rng.chance(1, 2),
                 "imports": rng.choice([[], [], ["math"], ["time", "math"], ["math", "time"]]),
@@ -113,6 +114,14 @@ class C15(Prop):
                 ctx.count("compile_error")
             return (False, False, 0)
         mem = bytes.fromhex(case["mem"])
+        # strings meant to be searched on their own must really be so (else the model's check count is off)
+        names = [n for r in ruleset.ordered_rules(rs) for n, _ in r["strings"]]
+        kinds = out.get("kinds") or []
+        if any(ruleset.is_raw(n) != (k == "Raw") for n, k in zip(names, kinds)):
+            ctx.count("skipped: a string is not scanned the way the generator assumes")
+            return (True, True, 0)
+        if any(ruleset.is_raw(n) for n in names):
+            ctx.count("with strings searched on their own (no literal)")
         full = g_outcome(rs, out["full"])
         if full is None:
             return (False, False, 0)
@@ -132,7 +141,10 @@ class C15(Prop):
             if o is None:
                 return (False, False, 0)
             it = "(AbortAt %d)" % r["at"] if r["kind"] == "abort" else "(TimeoutAt %d)" % r["at"]
-            terms.append("C15_case c %s sc inp full %s %s" % (it, o, gbool(r["next_ok"])))
+            once_ok = r.get("once_same", True)
+            if not once_ok:
+                ctx.count("timeout firing once gives another outcome")
+            terms.append("C15_case c %s sc inp full %s %s" % (it, o, gbool(r["next_ok"] and once_ok)))
             ctx.count("%s %s" % (r["kind"], "interrupted" if r["out"].get("error") else "not reached"))
         ctx.count("points", len(terms))
         if not terms:
